@@ -121,14 +121,15 @@ def rotateOnceLists (seq : List String) (sst : List Char) : List String × Excep
 
 namespace LObj
 
-/-- `self.rotate_once()`: on success the four caches `_pair_table`, `_loop_index`, `_lol_sequence`,
-    `_exterior_domains` are reset (NOT `_exterior_loops`, `_enclosed_domains`, `_strand_lengths`) -/
+/-- `self.rotate_once()`: on success the caches `_pair_table`, `_loop_index`, `_lol_sequence`, `_strand_lengths`,
+    `_exterior_domains`, `_enclosed_domains` are reset (since the repair c1d6792 in /repo; before it `_strand_lengths` and
+    `_enclosed_domains` survived a turn - Props/C20FullViews `Findings`); `_exterior_loops` is recomputed with `_loop_index` -/
 def rotateOnce (o : LObj) : LObj × Option LErr :=
   match rotateOnceLists o.seq o.sst with
   | (seq', .error e) => ({ o with seq := seq' }, some e)
   | (seq', .ok sst') =>
     ({ o with seq := seq', sst := sst', pairTable := none, loopIndex := none, lolSequence := none,
-              exteriorDomains := none }, none)
+              strandLengths := none, exteriorDomains := none, enclosedDomains := none }, none)
 
 /-- the shared prologue of `size` / `strand_length`:
     `if not self._strand_lengths: (if not self._lol_sequence: self._lol_sequence = make_lol_sequence(self._sequence));
